@@ -137,3 +137,67 @@ Proof.
   unfold to_dms at 1 5. cbn [ddeg]. destruct (Qfloor (Qabs x) =? 0)%Z eqn:E; [apply Z.eqb_eq in E; lia|].
   reflexivity.
 Qed.
+
+(* ------------------------------------------------------------------ radian API, over R *)
+From Coq Require Import Reals Lra.
+Open Scope R_scope.
+
+Lemma Int_part_nonneg x : 0 <= x -> (0 <= Int_part x)%Z.
+Proof.
+  intros H. destruct (base_fp x) as [F0 F1]. unfold frac_part in *.
+  assert (L : IZR (-1) < IZR (Int_part x)) by (simpl; lra).
+  apply lt_IZR in L. lia.
+Qed.
+
+Lemma int_frac x : IZR (Int_part x) + frac_part x = x.
+Proof. unfold frac_part. ring. Qed.
+
+Lemma rad_deg_nonneg r : 0 <= Rabs r * (180 / PI).
+Proof.
+  apply Rmult_le_pos; [apply Rabs_pos|]. pose proof PI_RGT_0.
+  apply Rlt_le, Rdiv_lt_0_compat; lra.
+Qed.
+
+Lemma dms_roundtrip_rad_l r : dms_to_radR (rad_to_dmsR r) = r.
+Proof.
+  unfold dms_to_radR, rad_to_dmsR. cbn [rneg rdeg rmin rsec].
+  set (d := Rabs r * (180 / PI)). set (m := frac_part d * 60).
+  rewrite Z.abs_eq by (apply Int_part_nonneg, rad_deg_nonneg).
+  assert (E : IZR (Int_part d) + IZR (Int_part m) * (1 / 60) + frac_part m * 60 * (1 / 3600) = d).
+  { pose proof (int_frac d) as Ed. pose proof (int_frac m) as Em.
+    assert (Hm : m = frac_part d * 60) by reflexivity. clearbody m. lra. }
+  rewrite E. unfold d. pose proof PI_RGT_0.
+  destruct (Rlt_dec r 0) as [L|L].
+  - rewrite Rabs_left by exact L. field. lra.
+  - rewrite Rabs_right by lra. field. lra.
+Qed.
+
+Lemma rad_to_dms_range r :
+  (0 <= rdeg (rad_to_dmsR r))%Z /\ (0 <= rmin (rad_to_dmsR r) < 60)%Z /\ 0 <= rsec (rad_to_dmsR r) < 60.
+Proof.
+  unfold rad_to_dmsR. cbn [rdeg rmin rsec].
+  set (d := Rabs r * (180 / PI)). set (m := frac_part d * 60).
+  destruct (base_fp d) as [D0 D1]. destruct (base_fp m) as [M0 M1].
+  assert (Hm : 0 <= m < 60) by (unfold m; lra).
+  split; [apply Int_part_nonneg, rad_deg_nonneg|]. split; [split|lra].
+  - apply Int_part_nonneg. lra.
+  - pose proof (int_frac m) as E. assert (L : IZR (Int_part m) < IZR 60) by (simpl; lra).
+    apply lt_IZR in L. exact L.
+Qed.
+
+(* negative angles below one degree (in radians: above -PI/180) *)
+Lemma rad_to_dms_small_negative r : - (PI / 180) < r -> r < 0 ->
+  rneg (rad_to_dmsR r) = true /\ rdeg (rad_to_dmsR r) = 0%Z /\ dms_to_radR (rad_to_dmsR r) = r.
+Proof.
+  intros H1 H0. split; [|split; [|apply dms_roundtrip_rad_l]].
+  - unfold rad_to_dmsR. cbn [rneg]. destruct (Rlt_dec r 0); [reflexivity|contradiction].
+  - unfold rad_to_dmsR. cbn [rdeg]. set (d := Rabs r * (180 / PI)).
+    pose proof PI_RGT_0.
+    assert (Hd : 0 <= d < 1).
+    { split; [apply rad_deg_nonneg|]. unfold d. rewrite Rabs_left by exact H0.
+      apply (Rmult_lt_reg_r (PI / 180)); [lra|]. replace (- r * (180 / PI) * (PI / 180)) with (- r) by (field; lra). lra. }
+    destruct (base_fp d) as [D0 D1]. unfold frac_part in *.
+    assert (A : IZR (-1) < IZR (Int_part d)) by (simpl; lra).
+    assert (B : IZR (Int_part d) < IZR 1) by (simpl; lra).
+    apply lt_IZR in A. apply lt_IZR in B. lia.
+Qed.
